@@ -734,6 +734,8 @@ def agree(impl, model, req=None):
     ci, cm = core(impl), core(model)
     if ci == cm:
         return True
+    if req is not None and extra_in_key(impl, req):
+        return True
     if not (isinstance(ci, tuple) and isinstance(cm, tuple)) or ci[:3] != cm[:3]:
         return False
     di, dm = store_units(ci[3]), store_units(cm[3])
@@ -746,6 +748,17 @@ def agree(impl, model, req=None):
         if d["ews"] or d["eeol"]:
             di, dm = subst_dump(di, d["ews"], d["eeol"]), subst_dump(dm, d["ews"], d["eeol"])
     return di == dm
+
+
+def extra_in_key(impl, req):
+    """the one place where the IDENTITY of an extra whitespace / end-of-line character is observable: inside a quoted table
+    key such a character (U+000B, U+000C: refused by cif_has_disallowed_chars) makes parse_table report CIF_INVALID_INDEX
+    (since 8375485; before: fail with 73 silently, finding D8).  The model sees TAB / LF there (ASSUMPTIONS) and does not
+    report, so these requests are left to the oracle (which still demands that a failure was reported)."""
+    d = split_request(req)
+    o = split_impl(impl)
+    extra = list(d["ews"]) + list(d["eeol"])
+    return bool(o and extra and any(u in d["units"] for u in extra) and any(c == 73 for c, _ in o["log"]))
 
 
 def post_ok(d, aborted=False):
